@@ -9,23 +9,26 @@
   (`C14.seg`, `C14.P`, `C14.Q` — the segment polynomials — are defined in C14Mean.lean).
 
   Parameters of the model (contract audited by the check, not proved): the sparse solves
-  (`SparseLU`, `SimplicialLDLT`) and `lp2d::solve`.  Every theorem below is about what the code
+  (`SparseLU` on the constraint system / on the KKT system) and `lp2d::solve`.  Every theorem below is about what the code
   does AROUND them: which linear system it poses and what its solutions mean (`rows_mean_constraints`
   — for every specification, every degree and every number of segments), what `fit_spline` does
   with ANY output of the 1-d solver (`fit_spline_interpolates`), which word the scan returns for
   ANY six candidates (`dubins_argmin`), and what the guards of `reparameterize_spline` guarantee
   for ANY result of the linear programme.
 
-  Defects of the unchanged tree located with these theorems' hypotheses (see the check's findings):
-  * MinDerivative: the rows are right (`rows_mean_constraints`), the unpivoted LDLᵀ of the KKT
-    matrix with cost blocks `dt^{1−2D}·P + 1e-6·I` (`costFac_minDerivative`) does not solve them
-    for `dt ≲ 0.9`;
-  * `fit_bspline`: `bspline_window_exact` holds in exact arithmetic only — the code rounds
-    `(t1−t0)/dt` and `(t1−t0+dt)/dt` separately;
-  * `dubins`: the candidates exclude exactly tangent circles (`d13 ≤ 2R`, `4R ≤ d13`), so the
-    argmin is over a set that misses a feasible word there;
-  * `reparameterize_spline`: `segDt_zero_at_clamp` — the duration is 0 when a clamped speed
-    meets a forced deceleration, and `Spline(T)` asserts `T > 0`.
+  Defects located with these theorems' hypotheses on the pinned tree, since fixed in /repo (the
+  model follows the fixed code; a reappearance is a violation):
+  * MinDerivative: the rows were right (`rows_mean_constraints`), the unpivoted LDLᵀ of the KKT
+    matrix with cost blocks `dt^{1−2D}·P + 1e-6·I` (`costFac_minDerivative`) did not solve them
+    for `dt ≲ 0.9` — now `SparseLU` on the full symmetric matrix (`kktEntries` mirrors `A`);
+  * `fit_bspline`: the count rounded `(t1−t0+dt)/dt` separately from the window index
+    `(t−t0)/dt` — now `bspline_window` holds for any monotone rounding;
+  * `dubins`: exactly tangent circles were excluded (`d13 ≤ 2R`, `4R ≤ d13`) — now strict;
+  * `reparameterize_spline`: `reparam_guard_needed` — the duration is 0 when a clamped speed meets
+    a forced deceleration; the code now emits a segment only `if (dt > 0)`
+    (`reparam_emitted_positive`) and clamps/initialises `v2max` (`reparam_v2max_nonneg`).
+  Still open (known findings): stationary stretches are skipped (`s(0) ≠ t_min` for a curve at
+  rest at `t_min`); `start_vel = 0` with `|ai| < eps` divides by `vi = 0`.
 -/
 import SmoothProofs.C14Mean
 import SmoothProofs.C14Glue
@@ -159,8 +162,8 @@ theorem costFac_minDerivative (K : ℕ) (dt : ℝ) :
 def kkt_minimiser_statement : Prop :=
   ∀ (s : Fit.Spec) (O : ℕ) (dt dx lv rv : List ℝ) (z : ℕ → ℝ), s.optDeg = some O →
     (∀ r < s.nCoef (Fit.nSeg dt dx) + s.nEq (Fit.nSeg dt dx),
-      (((Fit.kktEntries s O 0 dt dx lv rv).filter (fun e => e.1 = r ∨ e.2.1 = r)).map
-        (fun e => e.2.2 * z (if e.1 = r then e.2.1 else e.1))).sum
+      (((Fit.kktEntries s O 0 dt dx lv rv).filter (fun e => e.1 = r)).map
+        (fun e => e.2.2 * z e.2.1)).sum
         = (Fit.kktRhs s dt dx lv rv).getD r 0) →
     Fit.RowsSat (Fit.rows s dt dx lv rv) z
 
@@ -250,15 +253,19 @@ def dubins_reaches_target_statement : Prop :=
 
 /-! ## 4. `fit_bspline` -/
 
-/-- **fit_bspline_covers** (exact arithmetic): the returned `BSpline(t0, dt, ctrl_pts)` has
-    `t_min = t0 = min ts` by construction, at least `K+1` control points, `t_max > t1 = max ts`,
-    and every data time has its window of `K+1` control points. -/
-theorem fit_bspline_covers (K : ℕ) (t0 t1 dt : ℝ) (hdt : 0 < dt) (h01 : t0 ≤ t1) :
+/-- **fit_bspline_covers**: the returned `BSpline(t0, dt, ctrl_pts)` has `t_min = t0 = min ts` by
+    construction, at least `K+1` control points, `t_max > t1 = max ts` (exact arithmetic), and every
+    data time has its window of `K+1` control points — the last for ANY monotone float→integer
+    conversion and any quotient `q ≤ (t1−t0)/dt` (so it survives rounding, which is monotone). -/
+theorem fit_bspline_covers (K : ℕ) (t0 t1 dt : ℝ) (hdt : 0 < dt) :
     K + 1 ≤ Fit.bsplineNumPts Fit.truncR K t0 t1 dt ∧
     t1 < Fit.bsplineTmax Fit.truncR K t0 t1 dt ∧
-    ∀ t, t0 ≤ t → t ≤ t1 → Fit.truncR ((t - t0) / dt) + K + 1 ≤ Fit.bsplineNumPts Fit.truncR K t0 t1 dt :=
-  ⟨Fit.bsplineNumPts_ge K t0 t1 dt hdt h01, Fit.bsplineTmax_covers K t0 t1 dt hdt,
-    fun t h0 h1 => Fit.bspline_window_exact K t0 t1 dt t hdt h0 h1⟩
+    (∀ t, t ≤ t1 → Fit.truncR ((t - t0) / dt) + K + 1 ≤ Fit.bsplineNumPts Fit.truncR K t0 t1 dt) ∧
+    (∀ (trunc : ℝ → ℕ), Monotone trunc → ∀ q, q ≤ (t1 - t0) / dt →
+        trunc q + K + 1 ≤ Fit.bsplineNumPts trunc K t0 t1 dt) :=
+  ⟨Fit.bsplineNumPts_ge _ K t0 t1 dt, Fit.bsplineTmax_covers K t0 t1 dt hdt,
+    fun t h1 => Fit.bspline_window_exact K t0 t1 dt t hdt h1,
+    fun trunc htr q hq => Fit.bspline_window trunc htr K t0 t1 dt q hq⟩
 
 /-! ## 5. `reparameterize_spline` -/
 
@@ -298,11 +305,24 @@ theorem reparam_monotone (si ds vi ai : ℝ) (hds : 0 < ds) (hvi : 0 ≤ vi) (hv
     · exact Reparam.mkSeg_end_le_decel si ds vi ai ha hg
     · exact le_of_eq (Reparam.mkSeg_end_exact si ds vi ai hna (le_of_lt (not_le.1 hg)))
 
-/-- the case the guards do NOT cover (and on which the unchanged tree aborts): clamped speed and a
-    forced deceleration give a segment of duration exactly 0 -/
-theorem reparam_zero_duration (ds ai : ℝ) (hds : 0 < ds) (hai : ai ≤ -Reparam.eps) :
+/-- why the guard `if (dt > 0)` is needed: a clamped speed and a forced deceleration give a
+    duration of exactly 0 (on the pinned tree `Spline(T)` then tripped over `assert(T > 0)`) -/
+theorem reparam_guard_needed (ds ai : ℝ) (hds : 0 < ds) (hai : ai ≤ -Reparam.eps) :
     Reparam.segDt ds (Real.sqrt Reparam.eps) Reparam.eps ai = 0 :=
   Reparam.segDt_zero_at_clamp ds ai hds hai
+
+/-- **no segment of non-positive duration is ever emitted**, for any state, any curve values and
+    any result of the linear programmes -/
+theorem reparam_emitted_positive {n : ℕ} (b : Reparam.Bounds ℝ n) (ds si v2next v2m : ℝ)
+    (p : Reparam.Sample ℝ n) (sg : Reparam.SegOut ℝ)
+    (h : (Reparam.fwdStep b ds si v2next v2m p).2 = some sg) : 0 < sg.dt :=
+  Reparam.fwdStep_emits_positive b ds si v2next v2m p sg h
+
+/-- the squared speed bounds of the reverse pass are non-negative (every entry is written: clamped
+    optimum, `inf`, or 0), whatever `lp2d::solve` returned -/
+theorem reparam_v2max_nonneg (lpres : List (ℝ × ℝ × ℕ)) (v2end : ℝ) (h : 0 ≤ v2end) :
+    ∀ y ∈ Reparam.backward lpres v2end, 0 ≤ y :=
+  Reparam.backward_nonneg lpres v2end h
 
 /-- small-acceleration branch `|ai| < eps` (`dt = ds/vi`) -/
 theorem reparam_monotone_small (si ds vi ai : ℝ) (hds : 0 < ds) (hvi : 0 < vi) (h : |ai| < Reparam.eps)
@@ -412,7 +432,7 @@ example :
 example := dubins_unit_speed_curvature 2 (by norm_num) ⟨(.L, .S, .R), (1, 2, 3), 9⟩
 
 /-- B-spline sizes: data on [2, 6] with knot spacing 1, cubic (the repository's own test case) -/
-example := fit_bspline_covers 3 2 6 1 (by norm_num) (by norm_num)
+example := fit_bspline_covers 3 2 6 1 (by norm_num)
 
 /-- reparameterisation: `ds = 0.1`, `vi = 1`, decelerating with `ai = −1` -/
 example := reparam_monotone 0 (1 / 10) 1 (-1) (by norm_num) (by norm_num)
